@@ -290,10 +290,10 @@ sequence of at most `μ` fair steps ends with nothing owed, and each result on t
 packet the writer emitted or – writer closed – the closed channel, which `Send` reports as
 `dropped`. -/
 def C03.Releases (c : Comp) : Prop :=
-  (c.outstanding > 0 → c.p.buf ≠ [] ∨ c.p.exited = true ∨ (c.w.done = false ∧ ∃ r ∈ c.w.readers, c.w.drops r > 0)) ∧
+  (c.outstanding > 0 → c.p.buf ≠ [] ∨ c.p.exited = true ∨ (c.w.done = false ∧ ∃ r ∈ c.w.readers, (c.w.drops r).length > 0)) ∧
   (c.outstanding > 0 → (c.p.buf ≠ [] ∨ c.p.exited = true) → mu (applyC .discard c .recv).1 < mu c) ∧
   (c.p.inClosed = true → c.p.exited = false → mu (applyC .discard c .pumpExit).1 < mu c) ∧
-  (∀ r ∈ c.w.readers, c.w.done = false → c.w.drops r > 0 → mu (applyC .discard c (.w (.deliverDrop r))).1 < mu c) ∧
+  (∀ r ∈ c.w.readers, c.w.done = false → (c.w.drops r).length > 0 → mu (applyC .discard c (.w (.deliverDrop r))).1 < mu c) ∧
   (∀ v, (applyC .discard c (.w (.write v))).1.accepted = c.accepted) ∧
   (∃ cs, (∀ x ∈ cs, IsFair x) ∧ cs.length ≤ mu c ∧ (runC .discard c cs).outstanding = 0 ∧
     ∀ x ∈ (runC .discard c cs).got, (∃ a, x = .got a ∧ a ∈ (runC .discard c cs).p.pushed) ∨
